@@ -242,8 +242,7 @@ def check_escape(c, f, cp):
     dv = norm(fn.ast.value.func.value)
     c.check(meth == 'find', cp, fn.ast, 'the escape position is the FIRST occurrence in the read (bytes.find): what follows the first '
             'escape character, including a second one, must not reach the child', witness='uses .%s()' % meth, kind='ast', tag='leftmost')
-    guards = [t for t in g.nodes if t.kind == 'test' and norm(t.ast) == '%s is not None' % ep and fn in guard_region(g, t, 'true')]
-    c.check(bool(guards), cp, fn.ast, 'no escape handling when escape_character is None', tag='none-guard')
+    c.check(('%s is None' % ep, False) in conditions(g, fn), cp, fn.ast, 'no escape handling when escape_character is None', tag='none-guard')
     inits = [n for n in g.nodes if n.kind == 'stmt' and iv in assigned_names(n.ast) and n is not fn]
     uses = [n for n in g.nodes if n.ast is not None and n is not fn and n not in inits and
             any(isinstance(x, ast.Name) and x.id == iv and isinstance(x.ctx, ast.Load) for r_ in node_roots(n) for x in ast.walk(r_))]
@@ -306,16 +305,22 @@ def check_escape(c, f, cp):
     # after the break nothing more is written: the only successor is loop exit (structural by Break)
     # interact(): escape_character is converted to bytes once, and passed on
     ks = [k for k in calls_in(f.node) if callee_last(k).endswith('__interact_copy')]
-    ok = len(ks) == 1 and [norm(a) for a in ks[0].args] == ['escape_character', 'input_filter', 'output_filter']
+    # what is handed on as the escape byte: the parameter itself (re-bound to its latin-1 form), or a local every binding of which
+    # is the parameter or the parameter's latin-1 form
+    EP = 'escape_character'
+    first = ks[0].args[0] if len(ks) == 1 and ks[0].args else None
+    carrier = first.id if isinstance(first, ast.Name) else None
+    binds = [n for n in iter_nodes(f.node) if isinstance(n, ast.Assign) and carrier in assigned_names(n)] if carrier else []
+    is_latin = lambda e: norm(e) == "%s.encode('latin-1')" % EP
+    okc = carrier is not None and (carrier == EP or bool(binds)) and all(is_latin(n.value) or norm(n.value) == EP for n in binds)
+    ok = len(ks) == 1 and okc and [norm(a) for a in ks[0].args[1:]] == ['input_filter', 'output_filter']
     c.check(ok, f, ks[0] if ks else None, 'interact() passes escape character and both filters on, in order', witness=norm(ks[0]) if ks else '', kind='ast', tag='args')
-    enc = [n for n in iter_nodes(f.node) if isinstance(n, ast.Assign) and 'escape_character' in assigned_names(n)]
-    ok = len(enc) == 1 and norm(enc[0].value) == "escape_character.encode('latin-1')"
-    c.check(ok, f, enc[0] if enc else None, 'the escape character is converted to one byte (latin-1) for the byte-level comparison', kind='ast', tag='latin1')
+    enc = [n for n in binds if is_latin(n.value)]
+    c.check(len(enc) == 1, f, enc[0] if enc else None, 'the escape character is converted to one byte (latin-1) for the byte-level comparison', kind='ast', tag='latin1')
     if enc:
         gi = f.cfg
         en_ = gi.node_of_stmt(enc[0])
-        gs_ = [t for t in gi.nodes if t.kind == 'test' and norm(t.ast) == 'escape_character is not None' and en_ in guard_region(gi, t, 'true')]
-        c.check(bool(gs_), f, enc[0], 'the conversion is skipped for escape_character=None (no escape handling)', kind='path', tag='latin1-guard')
+        c.check(('%s is None' % EP, False) in conditions(gi, en_), f, enc[0], 'the conversion is skipped for escape_character=None (no escape handling)', kind='path', tag='latin1-guard')
 
 
 def check_log_total(c, repo):
